@@ -13,6 +13,10 @@ for d in sorted(glob.glob(ROOT + '/seeded/*')):
         conf = lines[-1] if lines else ''
         m['confirmed'] = conf
     status = m.get('detection', {}).get('status', 'pending')
+    if m.get('retired'):
+        json.dump(m, open(mp, 'w'), indent=1)
+        print(f"{sid:48s} {conf[:9]:9s} {'retired (was ' + status + ')':32s}")
+        continue
     line = ''
     if os.path.exists(out + '/stdout.txt'):
         so = open(out + '/stdout.txt').read()
